@@ -56,6 +56,7 @@ type artefact struct {
 	// (rawText) and, computed on first use, those plus every string element of the DER tree (spans)
 	rawText [][2]int
 	spans   []textSpan
+	algp    []algPos // positions of the der-algid mutator
 }
 
 type world struct {
@@ -67,6 +68,12 @@ type world struct {
 
 	msg, uid, pw, wrongPw, psk []byte
 	digest                     []byte
+	digest64                   []byte
+
+	// a PKI per key kind (algid.go)
+	kk     []*keyKind
+	kkPool *smx509.CertPool
+	kkP7   []string // kinds with PKCS#7 artefacts
 
 	sm2A, sm2B, sm2C *sm2.PrivateKey
 	nistP256         *sm2.PrivateKey // sm2.PrivateKey on a NIST curve: legacy code paths
@@ -206,6 +213,8 @@ func buildWorld(seed uint64) (w *world, err error) {
 	w.psk = []byte("0123456789abcdef")
 	dg := sm3.Sum(w.msg)
 	w.digest = dg[:]
+	sha := sha256.Sum256(w.msg)
+	w.digest64 = append(append([]byte{}, sha[:]...), dg[:]...) // digests of every size are prefixes of it
 	w.now = time.Unix(1750000000, 0)
 
 	w.sm2A, w.sm2B, w.sm2C = sm2Key(scalarA), sm2Key(scalarB), sm2Key(scalarC)
@@ -258,6 +267,9 @@ func (w *world) harvestOIDs() {
 		pkcs.AES192GCM, pkcs.AES256GCM, pkcs.DESCBC, pkcs.TripleDESCBC} {
 		lib = append(lib, c.OID())
 	}
+	// the named curves and signature algorithms of the key-kind PKI (algid.go), whose artefacts join the world later
+	lib = append(lib, arc(oidSecgArc, 33), arc(oidSecgArc, 34), arc(oidSecgArc, 35), oidP256, arc(oidECDSA2, 2), arc(oidECDSA2, 3), arc(oidECDSA2, 4),
+		asn1.ObjectIdentifier{1, 3, 101, 112}, arc(oidPKCS1, 11), arc(oidGM, 501))
 	for _, o := range lib {
 		if b, err := asn1.Marshal(o); err == nil && len(b) > 2 {
 			set[string(b[2:])] = true
